@@ -68,7 +68,7 @@ ASSUMPTIONS = [
     "structural identity = vf.canon.tree_canon (Node.to_json without parent/scope/id)",
 ]
 SHARDS = {"quick": 16, "thorough": 16}
-SOFT_BUDGET_S = {"quick": 100, "thorough": 2400}
+SOFT_BUDGET_S = {"quick": 150, "thorough": 1500}
 
 # --------------------------------------------------------------------------
 # texts
@@ -361,6 +361,8 @@ class Sim:
                     labels.append("hit")
             if not self.initialized:
                 labels.append("initializing_call")
+        ref = self._uncached(text)
+        self._check_construction(i, ref)  # the reference is a value from here on, never a raise
         got = self._outcome(
             lambda: self.P.parse(
                 text,
@@ -373,8 +375,6 @@ class Sim:
         )
         if cached_mode:
             self.initialized = True
-        ref = self._uncached(text)
-        self._check_construction(i, ref)
         what = "parse #%d of %r (%s)" % (self.nparse, self.pool_spec[i], ",".join(labels))
         self.nparse += 1
         if got[0] == "raise":
